@@ -245,7 +245,17 @@ def execute_daemon(case):
                 break
             if w.ctrl.stream.closed:
                 break
-            # the daemon must still serve the next request
+            # the daemon must still serve the next request - a state-changing
+            # one too (nothing is in flight: the slot must be free)
+            px = w.request('set', {"name": "b", "options": {}})
+            rx = px.reply()
+            if rx is None or 'arbiter is already running' in str(
+                    rx.get('reason')):
+                viols.append(Violation(
+                    'C06:next-request-refused:' + sk,
+                    'after %r (daemon quiescent) an exclusive request was '
+                    'answered %r' % (payload[:120], rx)))
+                break
             pr = w.request('numwatchers', {})
             rp = pr.reply()
             if pr.sync_replies != 1 or rp is None or \
